@@ -2227,6 +2227,142 @@ Proof.
       rewrite (first_loop_some ev _ body ps r x' o Er). reflexivity.
 Qed.
 
+(* ---------- First over a body with conditionals ---------- *)
+(* body_ready with the frame of the conditionals named once for every enclosing state *)
+Lemma body_ready_T (brs : list branch) (ev : event) (g : guard) (n : nat) (iv : string) (ar : bool) (v : value) (e : bexp) (m : nat) :
+  (forall j, String.eqb (if_name j) iv = false) ->
+  match dconds ev v e with
+  | ROk rs =>
+      exists T', (forall st, exec_stmts brs ev (bpre iv ar e m) (istate g n iv v (dframe (bdecls e m)) st) = ROk (istate g n iv v T' st)) /\
+                 frame_get iv T' = None /\
+                 (forall y, (forall j, String.eqb y (if_name j) = false) -> frame_get y T' = None) /\
+                 (forall st, nstuck (dbx ev v e rs) -> eval ev (istate g n iv v T' st) (bx iv ar e m) = dbx ev v e rs)
+  | RFault f => forall st, exec_stmts brs ev (bpre iv ar e m) (istate g n iv v (dframe (bdecls e m)) st) = RFault f
+  | RStuck _ => True
+  end.
+Proof.
+  intro Hifiv.
+  assert (Hiv0 : frame_get iv (dframe (bdecls e m)) = None).
+  { apply bdecls_none. intros k _. rewrite String.eqb_sym. apply Hifiv. }
+  assert (Hin0 : forall k, k < nifs e -> exists old, frame_get (if_name (m + k)) (dframe (bdecls e m)) = Some ("double", old)).
+  { intros k Hk. eexists. apply bdecls_get, Hk. }
+  assert (P : forall st, match dconds ev v e with
+              | ROk rs => exec_stmts brs ev (bpre iv ar e m) (istate g n iv v (dframe (bdecls e m)) st) = ROk (istate g n iv v (tsets m rs (dframe (bdecls e m))) st) /\
+                          List.length rs = nifs e /\ Forall (fun r => r <> VUninit) rs
+              | RFault f => exec_stmts brs ev (bpre iv ar e m) (istate g n iv v (dframe (bdecls e m)) st) = RFault f
+              | RStuck _ => True end).
+  { intro st. exact (bpre_exec brs ev g n iv ar v st e Hifiv m (dframe (bdecls e m)) Hiv0 Hin0). }
+  destruct (dconds ev v e) as [rs|f|k]; [|exact P|exact I].
+  exists (tsets m rs (dframe (bdecls e m))).
+  assert (L : List.length rs = nifs e) by (destruct (P (enter [] {| frames := []; members := []; rows := [] |})) as (_ & L & _); exact L).
+  assert (N : Forall (fun r => r <> VUninit) rs) by (destruct (P (enter [] {| frames := []; members := []; rows := [] |})) as (_ & _ & N); exact N).
+  split; [intro st; exact (proj1 (P st))|]. split; [|split].
+  - rewrite tsets_other; [exact Hiv0|]. intro j. rewrite String.eqb_sym. apply Hifiv.
+  - intros y Hy. rewrite tsets_other; [|exact Hy]. apply bdecls_none. intros k _. apply Hy.
+  - intros st Hn. apply (bx_eval ev g n iv ar v st e Hifiv m _ rs); try assumption.
+    + rewrite tsets_other; [exact Hiv0|]. intro j. rewrite String.eqb_sym. apply Hifiv.
+    + intros k Hk. split.
+      * apply tsets_get; [|lia]. intros j Hj. apply Hin0. lia.
+      * rewrite Forall_forall in N. apply N. apply nth_In. lia.
+Qed.
+
+(* the capture of a body whose conditionals have been evaluated into the frame T *)
+Lemma exec_capture_b (brs : list branch) (ev : event) (g : guard) (n : nat) (iv : string) (ar : bool) (isf mem : string) (body : bexp) (m : nat)
+      (v : value) (T : frame) (st : state) (armed : bool) (old : value) (R : res value) :
+  fget isf st = Some ("bool", VBool armed) -> fget mem st = None -> mget mem st = Some (btype body, old) ->
+  String.eqb isf iv = false -> String.eqb isf (bo_name n) = false -> frame_get isf T = None ->
+  String.eqb mem iv = false -> String.eqb mem (bo_name n) = false -> frame_get mem T = None -> String.eqb mem isf = false ->
+  (armed = true -> forall st2, eval ev (istate g n iv v T st2) (bx iv ar body m) = R) ->
+  exec_stmt brs ev (fi_capture isf [] (one_stmt (SSet mem None (bx iv ar body m)))) (istate g n iv v T st) =
+  if armed then match R with
+                | ROk x => ROk (istate g n iv v T (updm mem (conv (btype body) x) (upd isf (VBool false) st)))
+                | RFault f => RFault f
+                | RStuck k => RStuck k
+                end
+  else ROk (istate g n iv v T st).
+Proof.
+  intros Hf Hm Hmg Hfi Hfb HfT Hmi Hmb HmT Hmf He.
+  set (S := istate g n iv v T st).
+  assert (HfS : fget isf S = Some ("bool", VBool armed)) by (unfold S; rewrite istate_fget_other; assumption).
+  unfold fi_capture. rewrite exec_if, eval_var, (lookup_fget _ _ _ HfS). cbn [rbind truth].
+  destruct armed; [|reflexivity]. specialize (He eq_refl).
+  rewrite exec_block_eq. cbn [run_decls rbind]. rewrite exec_stmts_cons, exec_set. cbn [eval rbind].
+  assert (Hf' : fget isf (enter [] S) = Some ("bool", VBool true)) by (rewrite fget_enter; [exact HfS|reflexivity]).
+  destruct (assign_upd isf (VBool false) (enter [] S) _ _ Hf') as (Ha & Hlk & _ & _ & _ & _).
+  rewrite Hlk. change (conv "bool" (VBool false)) with (VBool false). rewrite Ha. cbn [rbind].
+  rewrite (upd_enter isf (VBool false) [] S "bool" (VBool true) eq_refl HfS).
+  unfold S. rewrite (upd_istate_other g n iv v T st isf (VBool false) "bool" (VBool true) Hfi Hfb HfT Hf).
+  set (st1 := upd isf (VBool false) st).
+  rewrite exec_one, exec_set.
+  rewrite (proj1 (eval_enter_nil ev (istate g n iv v T st1))). rewrite (He st1).
+  destruct R as [x|f|k]; cbn [rbind]; try reflexivity.
+  destruct (assign_upd isf (VBool false) st _ _ Hf) as (_ & _ & G & O & _ & _).
+  assert (Hm1 : fget mem st1 = None) by (unfold st1; rewrite (O mem Hmf); exact Hm).
+  assert (Hmg1 : mget mem st1 = Some (btype body, old)) by (unfold st1; rewrite mget_upd; exact Hmg).
+  set (S1 := istate g n iv v T st1).
+  assert (HmS : fget mem (enter [] S1) = None).
+  { rewrite fget_enter; [|reflexivity]. unfold S1. rewrite istate_fget_other; assumption. }
+  assert (HgS : mget mem (enter [] S1) = Some (btype body, old)) by (rewrite mget_enter; unfold S1; rewrite mget_istate; exact Hmg1).
+  destruct (assign_updm mem (conv (btype body) x) (enter [] S1) _ _ HmS HgS) as (Ha2 & Hlk2 & _).
+  rewrite Hlk2, Ha2. cbn [rbind]. rewrite updm_enter, pop_enter. unfold S1. rewrite updm_istate. reflexivity.
+Qed.
+
+Lemma firstb_loop_some (ev : event) (ty : string) (body : bexp) (ps : guard) (l : list value) : forall (x : value) (o : option value),
+  firstb_loop ev ty body ps l (Some x) = ROk o -> o = Some x.
+Proof.
+  induction l as [|v r IH]; intros x o H; cbn [firstb_loop] in H; [inversion H; reflexivity|].
+  destruct (gpasses ev v ps) as [[|]|f|k]; cbn [rbind] in H; try discriminate; [|eapply IH; exact H].
+  destruct (dconds ev v body) as [rs|f|k]; cbn [rbind] in H; try discriminate. eapply IH; exact H.
+Qed.
+
+Lemma loop_first_b (brs : list branch) (ev : event) (iv : string) (ar : bool) (isf mem : string) (body : bexp) (ps : guard) (n m : nat) (l : list value) :
+  forall (st : state) (found : option value) (old : value),
+  String.eqb isf iv = false -> String.eqb mem iv = false -> String.eqb mem isf = false ->
+  String.eqb isf (bo_name n) = false -> String.eqb mem (bo_name n) = false ->
+  String.eqb iv (bo_name n) = false -> String.eqb (bo_name n) iv = false ->
+  (forall j, String.eqb isf (if_name j) = false) -> (forall j, String.eqb mem (if_name j) = false) -> (forall j, String.eqb (if_name j) iv = false) ->
+  fget isf st = Some ("bool", VBool (match found with None => true | Some _ => false end)) ->
+  fget mem st = None -> mget mem st = Some (btype body, match found with Some x => x | None => old end) ->
+  nstuck (firstb_loop ev (btype body) body ps l found) ->
+  for_loop brs ev iv (loop_block iv ar ps n (bdecls body m)
+                        (app_stmts (bpre iv ar body m) (one_stmt (fi_capture isf [] (one_stmt (SSet mem None (bx iv ar body m))))))) l st =
+  match firstb_loop ev (btype body) body ps l found with
+  | ROk o => ROk (first_state isf mem found o st)
+  | RFault f => RFault f
+  | RStuck k => RStuck k
+  end.
+Proof.
+  induction l as [|v r IH]; intros st found old Hfi Hmi Hmf Hfb Hmb Hib Hbi Hfif Hmif Hifiv Hf Hm Hmg Hn.
+  - cbn [firstb_loop]. rewrite for_loop_nil. unfold first_state. destruct found; reflexivity.
+  - cbn [firstb_loop] in *. rewrite for_loop_cons.
+    rewrite (loop_block_exec brs ev iv ar ps n _ _ v st (bdecls_free body m) Hib Hbi (nstuck_bind_l _ _ Hn)).
+    destruct (gpasses ev v ps) as [b|f|k]; cbn [rbind] in *; [|reflexivity|destruct Hn].
+    destruct b; cbn [rbind]; [|apply (IH st found old Hfi Hmi Hmf Hfb Hmb Hib Hbi Hfif Hmif Hifiv Hf Hm Hmg Hn)].
+    rewrite exec_stmts_app.
+    pose proof (body_ready_T brs ev ps n iv ar v body m Hifiv) as B.
+    destruct (dconds ev v body) as [rs|f|k]; cbn [rbind] in *; [|rewrite B; reflexivity|destruct Hn].
+    destruct B as (T' & E & Hiv' & Hoth & Hev). rewrite E. cbn [rbind]. rewrite exec_one.
+    assert (HnR : found = None -> nstuck (dbx ev v body rs)).
+    { intro Ef. subst found. destruct (dbx ev v body rs); [exact I|exact I|destruct Hn]. }
+    rewrite (exec_capture_b brs ev ps n iv ar isf mem body m v T' st _ _ (dbx ev v body rs) Hf Hm Hmg Hfi Hfb (Hoth isf Hfif) Hmi Hmb (Hoth mem Hmif) Hmf).
+    2:{ intros Ea st2. apply Hev. apply HnR. destruct found; [discriminate|reflexivity]. }
+    destruct found as [x0|].
+    + cbn [rbind]. rewrite ipop_istate. apply (IH st (Some x0) old Hfi Hmi Hmf Hfb Hmb Hib Hbi Hfif Hmif Hifiv Hf Hm Hmg Hn).
+    + destruct (dbx ev v body rs) as [x|f|k] eqn:Ex; cbn [rbind] in *; [|reflexivity|destruct Hn].
+      rewrite ipop_istate.
+      set (x' := conv (btype body) x) in *.
+      destruct (assign_upd isf (VBool false) st _ _ Hf) as (_ & _ & G1 & O1 & _ & _).
+      assert (Hm1 : fget mem (upd isf (VBool false) st) = None) by (rewrite (O1 mem Hmf); exact Hm).
+      assert (Hmg1 : mget mem (upd isf (VBool false) st) = Some (btype body, old)) by (rewrite mget_upd; exact Hmg).
+      destruct (assign_updm mem x' (upd isf (VBool false) st) _ _ Hm1 Hmg1) as (_ & _ & G2 & _ & _ & _).
+      set (st1 := updm mem x' (upd isf (VBool false) st)) in *.
+      assert (Hf1 : fget isf st1 = Some ("bool", VBool false)) by (unfold st1; rewrite fget_updm; exact G1).
+      assert (Hm2 : fget mem st1 = None) by (unfold st1; rewrite fget_updm; exact Hm1).
+      rewrite (IH st1 (Some x') old Hfi Hmi Hmf Hfb Hmb Hib Hbi Hfif Hmif Hifiv Hf1 Hm2 G2 Hn).
+      destruct (firstb_loop ev (btype body) body ps r (Some x')) as [o|f|k] eqn:Er; try reflexivity.
+      rewrite (firstb_loop_some ev _ body ps r x' o Er). reflexivity.
+Qed.
+
 (* First is the LINQ one: with total predicates, the value is the body on the first element of the filtered
    collection, and the query is undefined exactly when the filtered collection is empty *)
 Lemma first_loop_found_total (ev : event) (ty : string) (body : pa) (ps : guard) (f : value -> bool) (l : list value) (x : value) :
@@ -2276,7 +2412,11 @@ Definition cds (c : column) (n : nat) : list decl :=
   | ColVec cr _ _ => [{| d_type := c_ctype cr; d_name := vcv_name cr n; d_init := None |}]
   | ColFirst cr g _ _ => [{| d_type := c_ctype cr; d_name := vcv_name cr n; d_init := None |}; fi_decl (isf_name (n + gsize g))]
   | ColVec2 c1 _ _ _ _ | ColFlat c1 _ _ _ _ => [{| d_type := c_ctype c1; d_name := vcv_name c1 n; d_init := None |}]
+  | ColFirstB cr g body _ => [{| d_type := c_ctype cr; d_name := vcv_name cr n; d_init := None |}; fi_decl (isf_name (isfb_at n g body))]
   end.
+Definition firstb_stmts (idiom : string) (cr : collref) (ps : guard) (body : bexp) (line mem : string) (n : nat) : stmts :=
+  SCons (SFetch idiom (vcv_name cr n) (c_ctype cr) (c_bank cr) (fetch_lines idiom (c_ctype cr) (c_bank cr)))
+        (SCons (tfirstb_loop cr ps body mem n) (one_stmt (fi_throw (isf_name (isfb_at n ps body)) line))).
 Definition cflat_stmts (idiom : string) (c1 : collref) (g1 : guard) (c2 : collref) (g2 : guard) (body : bexp) (mem : string) (n : nat) : stmts :=
   SCons (SFetch idiom (vcv_name c1 n) (c_ctype c1) (c_bank c1) (fetch_lines idiom (c_ctype c1) (c_bank c1)))
         (one_stmt (tflat_loop idiom c1 g1 c2 g2 body mem n)).
@@ -2290,11 +2430,12 @@ Definition css (idiom : string) (c : column) (mem : string) (ntk n : nat) : stmt
   | ColFirst cr ps body line => first_stmts idiom cr ps body line mem n
   | ColVec2 c1 g1 c2 g2 body => vec2_stmts idiom c1 g1 c2 g2 body mem (nt_name ntk) n
   | ColFlat c1 g1 c2 g2 body => cflat_stmts idiom c1 g1 c2 g2 body mem n
+  | ColFirstB cr ps body line => firstb_stmts idiom cr ps body line mem n
   end.
 Lemma tcol_split (idiom : string) (c : column) (mem : string) (ntk n : nat) :
   tcol idiom c mem ntk n = (cds c n, css idiom c mem ntk n, n + col_size c).
 Proof.
-  destruct c as [e|cr ps body|cr ps body line|c1 g1 c2 g2 body|c1 g1 c2 g2 body]; cbn [tcol cds css col_size]; [| | |reflexivity|reflexivity].
+  destruct c as [e|cr ps body|cr ps body line|c1 g1 c2 g2 body|c1 g1 c2 g2 body|cr ps body line]; cbn [tcol cds css col_size]; [| | |reflexivity|reflexivity|reflexivity].
   - rewrite (te_split idiom e n). rewrite (ex_size_size e). reflexivity.
   - unfold vec_stmts. replace (n + (2 + gsize ps + nifs body)) with (S (S n) + gsize ps + nifs body) by lia. reflexivity.
   - unfold first_stmts. replace (n + (3 + gsize ps)) with (S (S (S n)) + gsize ps) by lia. reflexivity.
@@ -2317,16 +2458,17 @@ Fixpoint rsets (r : row) (nf k n : nat) : stmts :=
   | (name, c) :: t =>
       match c with
       | ColScalar e => SCons (SSet (mem_name name (nf + k)) None (tc e n)) (rsets t nf (S k) (n + col_size c))
-      | ColVec _ _ _ | ColFirst _ _ _ _ | ColVec2 _ _ _ _ _ | ColFlat _ _ _ _ _ => rsets t nf (S k) (n + col_size c)
+      | ColVec _ _ _ | ColFirst _ _ _ _ | ColVec2 _ _ _ _ _ | ColFlat _ _ _ _ _ | ColFirstB _ _ _ _ => rsets t nf (S k) (n + col_size c)
       end
   end.
 Lemma trow_sets_split (idiom : string) (r : row) : forall nf k n, trow_sets idiom r nf k n = rsets r nf k n.
 Proof.
   induction r as [|[name c] t IH]; intros nf k n; cbn [trow_sets rsets]; [reflexivity|].
-  destruct c as [e|cr ps body|cr ps body line|c1 g1 c2 g2 body|c1 g1 c2 g2 body]; cbn [col_size].
+  destruct c as [e|cr ps body|cr ps body line|c1 g1 c2 g2 body|c1 g1 c2 g2 body|cr ps body line]; cbn [col_size].
   - rewrite (te_split idiom e n), IH. rewrite (ex_size_size e). reflexivity.
   - replace (n + (2 + gsize ps + nifs body)) with (S (S n) + gsize ps + nifs body) by lia. apply IH.
   - replace (n + (3 + gsize ps)) with (S (S (S n)) + gsize ps) by lia. apply IH.
+  - apply IH.
   - apply IH.
   - apply IH.
 Qed.
@@ -2335,6 +2477,7 @@ Definition cvars (c : column) (n : nat) : list string :=
   match c with
   | ColScalar e => vars e n | ColVec cr _ _ => [vcv_name cr n] | ColFirst cr g _ _ => [vcv_name cr n; isf_name (n + gsize g)]
   | ColVec2 c1 _ _ _ _ | ColFlat c1 _ _ _ _ => [vcv_name c1 n]    (* the names of the outer loop's block live and die inside it *)
+  | ColFirstB cr g body _ => [vcv_name cr n; isf_name (isfb_at n g body)]
   end.
 Fixpoint rvars (r : row) (n : nat) : list string :=
   match r with [] => [] | (_, c) :: t => cvars c n ++ rvars t (n + col_size c) end.
@@ -2344,6 +2487,7 @@ Definition col_bases_ok (c : column) : bool :=
   match c with
   | ColScalar e => bases_ok e | ColVec cr _ _ | ColFirst cr _ _ _ => base_ok (c_base cr)
   | ColVec2 c1 _ c2 _ _ | ColFlat c1 _ c2 _ _ => base_ok (c_base c1) && base_ok (c_base c2)
+  | ColFirstB cr _ _ _ => base_ok (c_base cr)
   end.
 Fixpoint row_bases_ok (r : row) : bool :=
   match r with [] => true | (_, c) :: t => col_bases_ok c && row_bases_ok t end.
@@ -2351,7 +2495,7 @@ Fixpoint row_bases_ok (r : row) : bool :=
 Lemma cvars_shape (c : column) (n : nat) (x : string) : col_bases_ok c = true -> In x (cvars c n) ->
   exists b i, x = nm b i /\ last_digit b = false /\ first_not_underscore b = true /\ n <= i < n + col_size c.
 Proof.
-  destruct c as [e|cr ps body|cr ps body line|c1 g1 c2 g2 body|c1 g1 c2 g2 body]; cbn [col_bases_ok cvars col_size]; intros Hb Hin.
+  destruct c as [e|cr ps body|cr ps body line|c1 g1 c2 g2 body|c1 g1 c2 g2 body|cr ps body line]; cbn [col_bases_ok cvars col_size]; intros Hb Hin.
   - rewrite ex_size_size. apply vars_shape; assumption.
   - destruct Hin as [<-|[]]. unfold base_ok in Hb. apply andb_prop in Hb as [H1 H2]. apply negb_true_iff in H1.
     exists (c_base cr), n. repeat split; auto; lia.
@@ -2363,6 +2507,10 @@ Proof.
     exists (c_base c1), n. repeat split; auto; lia.
   - apply andb_prop in Hb as [Hb _]. destruct Hin as [<-|[]]. unfold base_ok in Hb. apply andb_prop in Hb as [H1 H2]. apply negb_true_iff in H1.
     exists (c_base c1), n. repeat split; auto; lia.
+  - unfold base_ok in Hb. apply andb_prop in Hb as [H1 H2]. apply negb_true_iff in H1.
+    destruct Hin as [<-|[<-|[]]].
+    + exists (c_base cr), n. repeat split; auto; lia.
+    + exists "is_first", (S (S (isfb_at n ps body))). unfold isfb_at. repeat split; auto; lia.
 Qed.
 Lemma rvars_shape (r : row) : forall n x, row_bases_ok r = true -> In x (rvars r n) ->
   exists b i, x = nm b i /\ last_digit b = false /\ first_not_underscore b = true /\ n <= i < n + row_size r.
@@ -2407,6 +2555,7 @@ Definition col_declared (c : column) (n : nat) (st : state) : Prop :=
   | ColVec cr _ _ => exists t v, fget (vcv_name cr n) st = Some (t, v)
   | ColFirst cr g _ _ => (exists t v, fget (vcv_name cr n) st = Some (t, v)) /\ fget (isf_name (n + gsize g)) st = Some ("bool", VBool true)
   | ColVec2 c1 _ _ _ _ | ColFlat c1 _ _ _ _ => exists t v, fget (vcv_name c1 n) st = Some (t, v)
+  | ColFirstB cr g body _ => (exists t v, fget (vcv_name cr n) st = Some (t, v)) /\ fget (isf_name (isfb_at n g body)) st = Some ("bool", VBool true)
   end.
 Fixpoint row_declared (r : row) (n : nat) (st : state) : Prop :=
   match r with [] => True | (_, c) :: t => col_declared c n st /\ row_declared t (n + col_size c) st end.
@@ -2414,13 +2563,15 @@ Fixpoint row_declared (r : row) (n : nat) (st : state) : Prop :=
 Lemma col_declared_ext (c : column) (n : nat) (st st' : state) :
   (forall x, In x (cvars c n) -> fget x st' = fget x st) -> col_declared c n st -> col_declared c n st'.
 Proof.
-  destruct c as [e|cr ps body|cr ps body line|c1 g1 c2 g2 body|c1 g1 c2 g2 body]; cbn [col_declared cvars]; intros H D.
+  destruct c as [e|cr ps body|cr ps body line|c1 g1 c2 g2 body|c1 g1 c2 g2 body|cr ps body line]; cbn [col_declared cvars]; intros H D.
   - eapply declared_ext; eauto.
   - destruct D as (t & v & D). exists t, v. rewrite H; [exact D|left; reflexivity].
   - destruct D as [(t & v & D) Df]. split; [exists t, v; rewrite H; [exact D|left; reflexivity]|].
     rewrite H; [exact Df|right; left; reflexivity].
   - destruct D as (t & v & D). exists t, v. rewrite H; [exact D|left; reflexivity].
   - destruct D as (t & v & D). exists t, v. rewrite H; [exact D|left; reflexivity].
+  - destruct D as [(t & v & D) Df]. split; [exists t, v; rewrite H; [exact D|left; reflexivity]|].
+    rewrite H; [exact Df|right; left; reflexivity].
 Qed.
 Lemma row_declared_ext (r : row) : forall n st st',
   (forall x, In x (rvars r n) -> fget x st' = fget x st) -> row_declared r n st -> row_declared r n st'.
@@ -2441,12 +2592,13 @@ Definition col_done (ev : event) (c : column) (mem : string) (n : nat) (st : sta
   | ColVec cr ps body => exists v, p = Some v /\ (exists l, v = VVec l) /\ mget mem st = Some (col_type c, v)
   | ColFirst cr ps body _ => exists v, p = Some v /\ mget mem st = Some (col_type c, v)
   | ColVec2 _ _ _ _ _ | ColFlat _ _ _ _ _ => exists v, p = Some v /\ (exists l, v = VVec l) /\ mget mem st = Some (col_type c, v)
+  | ColFirstB _ _ _ _ => exists v, p = Some v /\ mget mem st = Some (col_type c, v)
   end.
 Lemma col_done_ext (ev : event) (c : column) (mem : string) (n : nat) (st st' : state) (p : option value) :
   (forall x, In x (cvars c n) -> fget x st' = fget x st) -> mget mem st' = mget mem st ->
   col_done ev c mem n st p -> col_done ev c mem n st' p.
 Proof.
-  destruct c as [e|cr ps body|cr ps body line|c1 g1 c2 g2 body|c1 g1 c2 g2 body]; cbn [col_done cvars]; intros Hf Hm D.
+  destruct c as [e|cr ps body|cr ps body line|c1 g1 c2 g2 body|c1 g1 c2 g2 body|cr ps body line]; cbn [col_done cvars]; intros Hf Hm D.
   - destruct D as (B & E & (old & M)). split; [|split].
     + intros x Hx. rewrite (Hf x (bvars_incl e n x Hx)). apply B, Hx.
     + intro Hn. rewrite (tc_ext ev e n st st' B Hf). exact (E Hn).
@@ -2455,6 +2607,7 @@ Proof.
   - destruct D as (v & Ep & D). exists v. split; [exact Ep|]. rewrite Hm. exact D.
   - destruct D as (v & Ep & Sh & D). exists v. split; [exact Ep|]. split; [exact Sh|]. rewrite Hm. exact D.
   - destruct D as (v & Ep & Sh & D). exists v. split; [exact Ep|]. split; [exact Sh|]. rewrite Hm. exact D.
+  - destruct D as (v & Ep & D). exists v. split; [exact Ep|]. rewrite Hm. exact D.
 Qed.
 
 Lemma mem_neq_iv_gen (mem : string) (k : nat) : (forall b i, first_not_underscore b = true -> mem <> nm b i) -> String.eqb mem (iv_name k) = false.
@@ -2485,7 +2638,7 @@ Proof.
   assert (Hmf : forall j, String.eqb mem (if_name j) = false).
   { intro j. destruct (String.eqb mem (if_name j)) eqn:E; [|reflexivity]. apply String.eqb_eq in E. exfalso. exact (Hshape "if_else_result" (S (S j)) eq_refl E). }
   assert (Hifiv : forall j, String.eqb (if_name j) (iv_name n) = false) by (intro j; apply nm_neq_base; [reflexivity|reflexivity|discriminate]).
-  destruct c as [e|cr ps body|cr ps body line|c1 g1 c2 g2 body|c1 g1 c2 g2 body]; cbn [dcol1 dcol css col_bases_ok col_declared cvars col_done col_type] in *.
+  destruct c as [e|cr ps body|cr ps body line|c1 g1 c2 g2 body|c1 g1 c2 g2 body|cr ps body line]; cbn [dcol1 dcol css col_bases_ok col_declared cvars col_done col_type] in *.
   - pose proof (te_exec brs ev idiom e n st Hb D) as T.
     destruct (dstm ev e) as [[]|f|k]; cbn [rbind]; [|exact T|exact I].
     destruct T as (st' & E & M & R & U & B & V).
@@ -2639,6 +2792,53 @@ Proof.
       * intros m Hmne. rewrite (O m Hmne). apply mget_upd.
       * exists (VVec vs). split; [reflexivity|]. split; [eexists; reflexivity|exact G].
     + rewrite (LV I). reflexivity.
+  - destruct D as [(tcv & v0 & Dcv) Disf]. unfold firstb_stmts. rewrite exec_stmts_cons. cbn [exec_stmt].
+    destruct (assoc_ss (c_ctype cr, c_bank cr) (ev_colls ev)) as [cval|]; [|reflexivity].
+    destruct (assign_upd (vcv_name cr n) cval st tcv v0 Dcv) as (Has & _ & Hcv1 & Hoth & Mem1 & R1).
+    rewrite Has. cbn [rbind]. rewrite exec_stmts_cons. unfold tfirstb_loop. rewrite exec_for.
+    change (eval ev (upd (vcv_name cr n) cval st) (CDeref (CVar (vcv_name cr n))))
+      with (rbind (eval ev (upd (vcv_name cr n) cval st) (CVar (vcv_name cr n)))
+                  (fun x => match x with VNull => RFault FNullDeref | _ => ROk x end)).
+    rewrite eval_var, (lookup_fget _ _ _ Hcv1).
+    set (st1 := upd (vcv_name cr n) cval st) in *.
+    set (isf := isf_name (isfb_at n ps body)) in *.
+    unfold base_ok in Hb. apply andb_prop in Hb as [Hl F]. apply negb_true_iff in Hl.
+    assert (Ne1 : String.eqb isf (vcv_name cr n) = false) by (apply nm_neq; [reflexivity|exact Hl|unfold isfb_at; lia]).
+    assert (Ne2 : String.eqb isf (iv_name n) = false) by (apply nm_neq_base; [reflexivity|reflexivity|discriminate]).
+    assert (Hisf1 : fget isf st1 = Some ("bool", VBool true)) by (rewrite (Hoth _ Ne1); exact Disf).
+    assert (Hf1 : fget mem st1 = None).
+    { rewrite Hoth; [exact Hf|]. destruct (String.eqb mem (vcv_name cr n)) eqn:E; [|reflexivity].
+      apply String.eqb_eq in E. exfalso. exact (Hshape _ _ F E). }
+    assert (Hm1 : mget mem st1 = Some (btype body, old)) by (unfold st1; rewrite mget_upd; exact Hm).
+    assert (Hme : String.eqb mem isf = false).
+    { destruct (String.eqb mem isf) eqn:E; [|reflexivity]. apply String.eqb_eq in E. exfalso.
+      exact (Hshape "is_first" (S (S (isfb_at n ps body))) eq_refl E). }
+    assert (Nfb : String.eqb isf (bo_name n) = false) by (apply nm_neq_base; [reflexivity|reflexivity|discriminate]).
+    assert (Nfif : forall j, String.eqb isf (if_name j) = false) by (intro j; apply nm_neq_base; [reflexivity|reflexivity|discriminate]).
+    destruct cval; cbn [rbind]; try exact I; try reflexivity.
+    pose proof (loop_first_b brs ev (iv_name n) (c_arrow cr) isf mem body ps n (n + gsize ps) l st1 None old Ne2 Hiv Hme Nfb Hmb Hib Hbi Nfif Hmf Hifiv Hisf1 Hf1 Hm1) as L.
+    destruct (firstb_loop ev (btype body) body ps l None) as [o|f|k] eqn:Ef; cbn [rbind]; [| |exact I].
+    + rewrite (L I). cbn [rbind]. rewrite exec_one. unfold first_state.
+      destruct o as [x|].
+      * destruct (assign_upd isf (VBool false) st1 _ _ Hisf1) as (_ & _ & G1 & O1 & M1 & Rw1).
+        assert (Hf2 : fget mem (upd isf (VBool false) st1) = None) by (rewrite (O1 mem Hme); exact Hf1).
+        assert (Hm2 : mget mem (upd isf (VBool false) st1) = Some (btype body, old)) by (rewrite mget_upd; exact Hm1).
+        destruct (assign_updm mem x (upd isf (VBool false) st1) _ _ Hf2 Hm2) as (_ & _ & G2 & O2 & Fr2 & Rw2).
+        set (st2 := updm mem x (upd isf (VBool false) st1)) in *.
+        assert (Hl2 : lookup isf st2 = Some ("bool", VBool false)).
+        { apply lookup_fget. unfold st2. rewrite fget_updm. exact G1. }
+        rewrite (throw_if_done brs ev isf line st2 "bool" Hl2).
+        eexists. split; [reflexivity|]. split; [rewrite Rw2, Rw1; exact R1|]. split; [|split].
+        -- intros y Hy. unfold st2. rewrite fget_updm.
+           assert (Y1 : String.eqb y isf = false).
+           { destruct (String.eqb y isf) eqn:E; [|reflexivity]. apply String.eqb_eq in E. exfalso. apply Hy. right; left; auto. }
+           assert (Y2 : String.eqb y (vcv_name cr n) = false).
+           { destruct (String.eqb y (vcv_name cr n)) eqn:E; [|reflexivity]. apply String.eqb_eq in E. exfalso. apply Hy. left; auto. }
+           rewrite (O1 y Y1). apply (Hoth y Y2).
+        -- intros m Hmne. rewrite (O2 m Hmne). rewrite mget_upd. apply mget_upd.
+        -- exists x. split; [reflexivity|exact G2].
+      * rewrite (throw_if_armed brs ev isf line st1 "bool" (lookup_fget _ _ _ Hisf1)). reflexivity.
+    + rewrite (L I). reflexivity.
 Qed.
 
 (* ---------- all columns ---------- *)
@@ -2760,7 +2960,7 @@ Proof.
   - exists st. repeat split; auto.
   - set (mem := mem_name name (nf + k)) in *. inversion Nd as [|? ? Nin Nd']; subst.
     rename H into Dc. rename H0 into Dt.
-    destruct c as [e|cr gd body|cr gd body line|c1 g1 c2 g2 body|c1 g1 c2 g2 body]; cbn [col_done col_size dcol2] in *.
+    destruct c as [e|cr gd body|cr gd body line|c1 g1 c2 g2 body|c1 g1 c2 g2 body|cr gd body line]; cbn [col_done col_size dcol2] in *.
     + destruct Dc as (B & E & (old & M)).
       rewrite exec_stmts_cons, exec_set.
       destruct (de ev e) as [v0|f|kk] eqn:Ed; cbn [rbind]; [|rewrite (E I); reflexivity|exact I].
@@ -2826,6 +3026,17 @@ Proof.
       * rewrite (Mo2 mem Nin). exact M.
       * exact Sh.
       * exact Fi2.
+    + destruct Dc as (v & Ep & M). subst p. cbn [rbind].
+      specialize (IH nf (S k) (n + (3 + gsize gd + nifs body)) st ps' Dt).
+      assert (Sep1 : forall m, In m (rmems t nf (S k)) -> fget m st = None) by (intros m Hm; apply Sep; right; exact Hm).
+      specialize (IH Sep1 Nd').
+      destruct (drow2 ev t ps') as [vs'|f|kk]; cbn [rbind]; [|exact IH|exact I].
+      destruct IH as (st2 & E2 & F2 & R2 & Mo2 & Fi2).
+      exists st2. split; [exact E2|]. split; [exact F2|]. split; [exact R2|]. split; [|split; [|split]].
+      * intros m Hm. apply Mo2. intro H. apply Hm. right; exact H.
+      * rewrite (Mo2 mem Nin). exact M.
+      * exact I.
+      * exact Fi2.
 Qed.
 
 Definition mk_branch (m : (string * column) * member) : branch := {| br_name := fst (fst m); br_var := m_name (snd m) |}.
@@ -2861,7 +3072,7 @@ Proof.
   - exists st. repeat split; auto.
   - set (mem := mem_name name (nf + k)) in *. inversion Nd as [|? ? Nin Nd']; subst.
     destruct H0 as [Sh Dt]. rename H into M.
-    destruct c as [e|cr ps body|cr ps body line|c1 g1 c2 g2 body|c1 g1 c2 g2 body].
+    destruct c as [e|cr ps body|cr ps body line|c1 g1 c2 g2 body|c1 g1 c2 g2 body|cr ps body line].
     + destruct (IH nf (S k) st vs' Dt) as (st2 & E2 & F2 & R2 & Mo2 & A2); [intros m Hm; apply Sep; right; exact Hm|exact Nd'|].
       exists st2. split; [exact E2|]. split; [exact F2|]. split; [exact R2|]. split; [|split].
       * intros m Hm. apply Mo2. intro H. apply Hm. right; exact H.
@@ -2910,6 +3121,11 @@ Proof.
       * intros m Hm. rewrite Mo2; [apply O|]; [|intro H; apply Hm; right; exact H].
         destruct (String.eqb m mem) eqn:Em; [|reflexivity]. apply String.eqb_eq in Em. exfalso. apply Hm. left; auto.
       * rewrite (Mo2 mem Nin). exact G.
+      * exact A2.
+    + destruct (IH nf (S k) st vs' Dt) as (st2 & E2 & F2 & R2 & Mo2 & A2); [intros m Hm; apply Sep; right; exact Hm|exact Nd'|].
+      exists st2. split; [exact E2|]. split; [exact F2|]. split; [exact R2|]. split; [|split].
+      * intros m Hm. apply Mo2. intro H. apply Hm. right; exact H.
+      * rewrite (Mo2 mem Nin). exact M.
       * exact A2.
 Qed.
 
@@ -2926,7 +3142,7 @@ Proof.
   - apply andb_prop in Hb as [Hc Ht]. rewrite run_decls_app.
     assert (C : exists st1, run_decls ev (cds c n) st = ROk st1 /\ col_declared c n st1 /\ members st1 = members st /\
                             rows st1 = rows st /\ (forall y, ~ In y (cvars c n) -> fget y st1 = fget y st)).
-    { destruct c as [e|cr ps body|cr ps body line|cr g1 c2 g2 body|cr g1 c2 g2 body]; cbn [cds col_declared cvars col_bases_ok] in *.
+    { destruct c as [e|cr ps body|cr ps body line|cr g1 c2 g2 body|cr g1 c2 g2 body|cr ps body line]; cbn [cds col_declared cvars col_bases_ok] in *.
       5: { cbn [run_decls d_init d_name d_type].
         destruct (declare_spec (vcv_name cr n) (c_ctype cr) (default_value (c_ctype cr)) st) as (G & O & M & R).
         { apply Hf. left; reflexivity. }
@@ -2961,6 +3177,25 @@ Proof.
         + split; [congruence|]. split; [congruence|]. intros y Hy.
           assert (Y1 : String.eqb y (isf_name (n + gsize ps)) = false).
           { destruct (String.eqb y (isf_name (n + gsize ps))) eqn:E; [|reflexivity]. apply String.eqb_eq in E. exfalso. apply Hy. right; left; auto. }
+          assert (Y2 : String.eqb y (vcv_name cr n) = false).
+          { destruct (String.eqb y (vcv_name cr n)) eqn:E; [|reflexivity]. apply String.eqb_eq in E. exfalso. apply Hy. left; auto. }
+          rewrite (O2 _ Y1), (O _ Y2). reflexivity.
+      - cbn [run_decls d_init d_name d_type fi_decl eval rbind].
+        unfold base_ok in Hc. apply andb_prop in Hc as [Hl _]. apply negb_true_iff in Hl.
+        set (isf := isf_name (isfb_at n ps body)) in *.
+        assert (N1 : String.eqb isf (vcv_name cr n) = false) by (apply nm_neq; [reflexivity|exact Hl|unfold isfb_at; lia]).
+        destruct (declare_spec (vcv_name cr n) (c_ctype cr) (default_value (c_ctype cr)) st) as (G & O & M & R).
+        { apply Hf. left; reflexivity. }
+        set (st1 := declare (vcv_name cr n) (c_ctype cr) (default_value (c_ctype cr)) st) in *.
+        assert (F2 : fget isf st1 = None) by (rewrite (O _ N1); apply Hf; right; left; reflexivity).
+        change (init_value "bool" (VBool true)) with (VBool true).
+        destruct (declare_spec isf "bool" (VBool true) st1 F2) as (G2 & O2 & M2 & R2).
+        eexists. split; [reflexivity|]. split; [split|].
+        + eexists _, _. rewrite O2; [exact G|]. rewrite String.eqb_sym. exact N1.
+        + exact G2.
+        + split; [congruence|]. split; [congruence|]. intros y Hy.
+          assert (Y1 : String.eqb y isf = false).
+          { destruct (String.eqb y isf) eqn:E; [|reflexivity]. apply String.eqb_eq in E. exfalso. apply Hy. right; left; auto. }
           assert (Y2 : String.eqb y (vcv_name cr n) = false).
           { destruct (String.eqb y (vcv_name cr n)) eqn:E; [|reflexivity]. apply String.eqb_eq in E. exfalso. apply Hy. left; auto. }
           rewrite (O2 _ Y1), (O _ Y2). reflexivity. }
@@ -3137,7 +3372,13 @@ Qed.
 Lemma dcol12_natural (ev : event) (c : column) (v : value) :
   (exists p, dcol1 ev c = ROk p /\ dcol2 ev c p = ROk v) <-> dcol ev c = ROk v.
 Proof.
-  destruct c as [e|cr ps body|cr ps body line|c1 g1 c2 g2 body|c1 g1 c2 g2 body]; cbn [dcol1 dcol2 dcol].
+  destruct c as [e|cr ps body|cr ps body line|c1 g1 c2 g2 body|c1 g1 c2 g2 body|cr ps body line]; cbn [dcol1 dcol2 dcol].
+  6: { set (R := match assoc_ss (c_ctype cr, c_bank cr) (ev_colls ev) with
+              | Some (VVec l) => rdo o <- firstb_loop ev (btype body) body ps l None; match o with Some x => ROk x | None => RFault FThrow end
+              | Some VNull => RFault FNullDeref | Some _ => RStuck (KType "the bank does not hold a collection") | None => RFault FRetrieve end).
+    split.
+    + intros (p & H1 & H2). destruct R as [x|f|k]; cbn [rbind] in H1; try discriminate. inversion H1; subst. cbn in H2. exact H2.
+    + intro H. rewrite H. exists (Some v). split; reflexivity. }
   5: { set (R := match assoc_ss (c_ctype c1, c_bank c1) (ev_colls ev) with
               | Some (VVec l) => rdo vs <- flat_loop ev g1 c2 g2 body l []; ROk (VVec vs)
               | Some VNull => RFault FNullDeref | Some _ => RStuck (KType "the bank does not hold a collection") | None => RFault FRetrieve end).
@@ -3346,4 +3587,63 @@ Theorem flat_col_linq (ev : event) (c1 : collref) (g1 : guard) (c2 : collref) (g
 Proof.
   intros H1 H2 P1 P2 Hb. cbn [dcol]. rewrite H1.
   rewrite (flat_loop_linq ev g1 c2 g2 body f1 f2 g l2 l1 [] H2 P1 P2 Hb). reflexivity.
+Qed.
+
+(* ---------- First over a body with conditionals is the LINQ First ---------- *)
+Lemma firstb_loop_found_total (ev : event) (ty : string) (body : bexp) (ps : guard) (f : value -> bool) (g : value -> value) (l : list value) (x : value) :
+  passes_total ev ps l f -> (forall v, In v l -> f v = true -> db ev v body = ROk (g v)) ->
+  firstb_loop ev ty body ps l (Some x) = ROk (Some x).
+Proof.
+  induction l as [|v r IH]; intros Hp Hb; cbn [firstb_loop]; [reflexivity|].
+  assert (Hr : passes_total ev ps r f) by (intros w Hw; apply Hp; right; exact Hw).
+  rewrite (Hp v (or_introl eq_refl)). cbn [rbind].
+  destruct (f v) eqn:Ef; [|apply IH; [exact Hr|intros w Hw; apply Hb; right; exact Hw]].
+  pose proof (Hb v (or_introl eq_refl) Ef) as Hv. unfold db in Hv.
+  destruct (dconds ev v body) as [rs|ff|k]; cbn [rbind] in *; try discriminate.
+  apply IH; [exact Hr|intros w Hw; apply Hb; right; exact Hw].
+Qed.
+Lemma firstb_loop_linq (ev : event) (ty : string) (body : bexp) (ps : guard) (f : value -> bool) (g : value -> value) (l : list value) :
+  passes_total ev ps l f -> (forall v, In v l -> f v = true -> db ev v body = ROk (g v)) ->
+  firstb_loop ev ty body ps l None = ROk (match filter f l with [] => None | v :: _ => Some (conv ty (g v)) end).
+Proof.
+  induction l as [|v r IH]; intros Hp Hb; cbn [firstb_loop filter]; [reflexivity|].
+  assert (Hr : passes_total ev ps r f) by (intros w Hw; apply Hp; right; exact Hw).
+  assert (Hbr : forall w, In w r -> f w = true -> db ev w body = ROk (g w)) by (intros w Hw; apply Hb; right; exact Hw).
+  rewrite (Hp v (or_introl eq_refl)). cbn [rbind].
+  destruct (f v) eqn:Ef.
+  - pose proof (Hb v (or_introl eq_refl) Ef) as Hv. unfold db in Hv.
+    destruct (dconds ev v body) as [rs|ff|k]; cbn [rbind] in *; try discriminate.
+    rewrite Hv. cbn [rbind]. apply (firstb_loop_found_total ev ty body ps f g r _ Hr Hbr).
+  - apply IH; assumption.
+Qed.
+Theorem firstb_col_linq (ev : event) (cr : collref) (ps : guard) (body : bexp) (line : string) (f : value -> bool) (g : value -> value) (l : list value) :
+  assoc_ss (c_ctype cr, c_bank cr) (ev_colls ev) = Some (VVec l) ->
+  passes_total ev ps l f -> (forall v, In v l -> f v = true -> db ev v body = ROk (g v)) ->
+  dcol ev (ColFirstB cr ps body line) =
+  match filter f l with [] => RFault FThrow | v :: _ => ROk (conv (btype body) (g v)) end.
+Proof.
+  intros Ha Hp Hb. cbn [dcol]. rewrite Ha. rewrite (firstb_loop_linq ev (btype body) body ps f g l Hp Hb). cbn [rbind].
+  destruct (filter f l); reflexivity.
+Qed.
+
+(* the emitted job of a First column with conditionals throws exactly when nothing passes the filters *)
+Theorem frag_firstb_faults_iff_empty (bk : backend) (name : string) (cr : collref) (ps : guard) (body : bexp) (line : string)
+        (n0 : nat) (ev : event) (ms : frame) (f : value -> bool) (g : value -> value) (l : list value) :
+  let r := [(name, ColFirstB cr ps body line)] in
+  base_ok (c_base cr) = true -> members_init r (n0 + row_size r) 0 ms ->
+  assoc_ss (c_ctype cr, c_bank cr) (ev_colls ev) = Some (VVec l) ->
+  passes_total ev ps l f -> (forall v, In v l -> f v = true -> db ev v body = ROk (g v)) ->
+  match filter f l with
+  | [] => run_event (prog_row bk r n0) ms ev = RFault FThrow
+  | v :: _ => exists ms', run_event (prog_row bk r n0) ms ev = ROk ([[conv (btype body) (g v)]], ms')
+  end.
+Proof.
+  intros r Hb Mi Ha Hp Hg.
+  assert (Hrb : row_bases_ok r = true) by (cbn; rewrite Hb; reflexivity).
+  assert (Nd : NoDup (rmems r (n0 + row_size r) 0)) by (cbn; constructor; [intros []|constructor]).
+  pose proof (frag_row_correct bk r n0 ev ms Hrb Nd Mi) as C. cbn zeta in C.
+  assert (Ed : drow ev r = match filter f l with [] => RFault FThrow | v :: _ => ROk [conv (btype body) (g v)] end).
+  { unfold r, drow. cbn [drow1 drow2 dcol1 dcol2]. rewrite (firstb_col_linq ev cr ps body line f g l Ha Hp Hg). destruct (filter f l); reflexivity. }
+  rewrite Ed in C. destruct (filter f l) as [|v t]; [exact C|].
+  destruct C as (ms' & E & _). exists ms'. exact E.
 Qed.
